@@ -223,10 +223,29 @@ def run_case(case, tier="quick"):
             if mpmath.isnan(got.real):
                 return dict(base, status="refusal", bucket=f"undefined_value:{name}")
             if abs(got - truth) > tol * max(1, abs(truth)):
+                # one quadrature over the whole range is not always good to 1e-20 for an oscillating integrand with heavy tails
+                # (Laplace(0,3), x**2 sin**4 cos**3: off by 5e-20): decide with the piecewise quadrature and its error estimate
+                ref = distref.func_joint_moment_refined(fam, a, b, c, dd)
+                if ref is not None:
+                    if ref[1] > tol / 100:
+                        return dict(base, status="gave_up", bucket="oracle_not_accurate_enough")
+                    tags.append("oracle_refined")
+                    if abs(got - ref[0]) <= tol * max(1, abs(ref[0])):
+                        return dict(base, status="ok", counters={"decided_by_refined_quadrature": 1})
+                    truth = ref[0]
                 return dict(base, status="violation", bucket=f"func_moment:{kind}:{name}", detail=dict(detail, polar=str(got), truth=str(truth)))
             return dict(base, status="ok")
     except pd.CaseTimeout:
         return dict(base, status="inconclusive", bucket="time_limit")
+
+
+def _refined_hook(fam, a, b, c, d):
+    ref = distref.func_joint_moment_refined(fam, a, b, c, d)
+    if ref is None:
+        return distref.func_joint_moment(fam, a, b, c, d)
+    if ref[1] > mpmath.mpf(10) ** -25:
+        raise ValueError("refined quadrature not accurate enough")
+    return ref[0]
 
 
 def _program(case, key, tl):
@@ -255,6 +274,7 @@ def _program(case, key, tl):
         e = next(iter(results.values()))[1]
         return dict(base, status="refusal", bucket=pd.refusal_bucket(e), detail=str(e)[:200])
     N = 4
+    refined = [False]
     try:
         with pd.time_limit(tl * 2):
             runs = common.oracle_runs(prog, [{}], N, max_states=2000)
@@ -273,6 +293,15 @@ def _program(case, key, tl):
                     else:
                         ok = pd.values_equal(pv, truth, 20 if case["exact"] else 14)
                         nontrivial = nontrivial or abs(truth) > 1e-30
+                    if not ok and not isinstance(truth, Fraction) and not refined[0]:
+                        # same reason as in the direct check: recompute the oracle with the piecewise quadrature before judging
+                        refined[0] = True
+                        refsem.set_func_moment_hook(_refined_hook)
+                        runs = common.oracle_runs(prog, [{}], N, max_states=2000)
+                        env, un, it, dists = runs[0]
+                        truth = refsem.expectation(dists[n], mono, it)
+                        ok = pd.values_equal(pv, truth, 20 if case["exact"] else 14)
+                        tags.append("oracle_refined")
                     if not ok:
                         return dict(base, status="violation", bucket="program_func_moment", nontrivial=True,
                                     detail={"program": text, "goal": k, "n": n, "polar": str(pv), "truth": str(truth), "closed_form": str(expr)[:500],
